@@ -42,7 +42,12 @@ def check(ctx):
     if ctx.replay:
         rp = json.load(open(ctx.replay))
         cmd = [ctx.harness_bin("harness"), "life", str(rp["seed"]), str(rp["case_index"] + 1), str(rp["case_index"])]
-    out = subprocess.run(cmd, stdout=subprocess.PIPE).stdout.decode().splitlines()
+    try:
+        out = subprocess.run(cmd, stdout=subprocess.PIPE, timeout=(400 if ctx.tier == "quick" else 4000)).stdout.decode().splitlines()
+    except subprocess.TimeoutExpired:
+        ctx.broken_correspondence({"what": "the harness did not finish: the library hangs or spins under the simulated kernel",
+                                   "cmd": " ".join(cmd)})
+        return
     cases, cur = [], None
     for l in out:
         if l.startswith("CASE "):
